@@ -551,6 +551,9 @@ func (db *DB) loadIndexFromDataFiles(fileIds []uint32, nonMergeFileId uint32) er
 				// 日志记录属于批处理的一部分
 				// 读取到带批处理完成标识的记录时再统一更新索引
 				if logRecord.Type == datafile.LogRecordBatchFinished {
+					// 完成标识记录本身占用磁盘空间且始终属于无效数据, 与 Commit 的统计保持一致
+					db.totalSize += int64(pos.Size)
+					db.reclaimSize += int64(pos.Size)
 					// 更新相同事务 id 的所有数据对应的索引信息
 					for _, txnRecord := range transactionRecords[batchID] {
 						updateIndex(txnRecord.Record.Key, txnRecord.Record.Type, txnRecord.Pos)
